@@ -61,8 +61,10 @@ def _stale_loop_contracts(I):
     import ast
     out = []
     for q, specs in I.loops.items():
-        if q not in I.functions_executed or q not in I.unrolled_in_contract_fn:
-            continue            # (a contract whose loop is simply gone leaves straight-line code: obligations on it stand)
+        if q not in I.functions_executed or (q not in I.unrolled_in_contract_fn and not I.uncontracted_loops_executed):
+            continue            # (a contract whose loop is simply gone leaves straight-line code - no loop ran anywhere without a contract,
+                                #  e.g. the loop was replaced by a library call: obligations on it stand; if the loop MOVED into a helper, the
+                                #  helper's loop ran without the contract's ghost bookkeeping and they do not)
         try:
             node = I.resolve(q).node
         except Exception:
